@@ -445,6 +445,14 @@ pub fn run_c08(tier: Tier) -> ! {
         let depth = if retry == 15 { 40 } else { tier.pick(11, 30) };
         plans.push(Plan { label: format!("1p retry{retry}"), cfg, depth, max_states: tier.pick(200_000, 4_000_000), secs: tier.pick(8.0, 240.0) });
     }
+    // every admissible retry limit (1..=15) with a narrow alphabet: loss runs of any length at any point of
+    // the life cycle (the state space stays small because the retry counter is the only thing that grows)
+    for retry in 1u8..=15 {
+        let acts = vec![Act::Answer, Act::ReqLost, Act::ReplyLost, Act::UserDiag(0), Act::Malformed(0)];
+        let mut cfg = base_cfg(vec![PeriphCfg::simple(9, 2, 1)], Mon::C08, acts);
+        cfg.rig.max_retry = retry;
+        plans.push(Plan { label: format!("1p loss runs retry{retry}"), cfg, depth: retry as usize + tier.pick(9, 14), max_states: tier.pick(200_000, 4_000_000), secs: tier.pick(4.0, 120.0) });
+    }
     for np in tier.pick(vec![2usize], vec![2, 3]) {
         let periphs: Vec<PeriphCfg> = [PeriphCfg::simple(9, 2, 1), PeriphCfg::simple(11, 0, 2), PeriphCfg::simple(4, 1, 0)][..np].to_vec();
         let mut cfg = base_cfg(periphs, Mon::C08, std_acts(np as u8, &[0, 7, 8, 12], true));
@@ -474,7 +482,7 @@ pub fn run_c08(tier: Tier) -> ! {
     finish_mc(
         t,
         "BFS over the joint state space (real DpMaster, reference slaves, per-destination frame-count monitor as history variables); transitions as C03 plus user calls at every point; oracle on the function-code byte and full bytes of consecutive requests per destination and on Offline events",
-        json!({"max_retry_limits": tier.pick(vec![1, 2], vec![1, 2, 3, 15]), "one_peripheral_depth": tier.pick(11, 30), "multi_peripheral_depth": tier.pick(9, 14)}),
+        json!({"max_retry_limits": tier.pick(vec![1, 2], vec![1, 2, 3, 15]), "loss_run_worlds_retry_limits": "1..=15", "one_peripheral_depth": tier.pick(11, 30), "multi_peripheral_depth": tier.pick(9, 14)}),
         vec!["c08_deep_state", "c08_stateright_cross_check_agrees"],
         0,
     )
